@@ -396,6 +396,29 @@ static void server_handle (const NiceAddress *srv, const NiceAddress *from, cons
   }
 }
 
+/* name lookups run in GResolver worker threads, in real time: wait (at most 10 s of real time) until no agent has a lookup outstanding, so that every
+ * answer lands at this point of virtual time whatever the load of the machine */
+static gboolean any_resolving (void)
+{
+  gboolean r = FALSE;
+  for (int i = 0; i < nagents && !r; i++) { NiceAgent *ag = A[i].agent; if (!ag) continue;
+    agent_lock (ag);
+    if (ag->stun_resolving_list) r = TRUE;
+    for (GSList *l = ag->streams; l && !r; l = l->next) { NiceStream *st = l->data;
+      for (GSList *c = st->components; c && !r; c = c->next) if (nice_component_resolving_turn (c->data)) r = TRUE; }
+    agent_unlock (ag); }
+  return r;
+}
+static void settle (void)
+{
+  for (int k = 0; k < 5000; k++) {
+    while (g_main_context_iteration (ctx, FALSE)) { dispatch_count++; vnow_us++; }
+    if (k >= 2 && !any_resolving ()) break;
+    g_usleep (2000);
+  }
+  while (g_main_context_iteration (ctx, FALSE)) { dispatch_count++; vnow_us++; }
+}
+
 /* ------------------------------------------------------------------ scenario interpreter */
 static NiceAddress mkaddr (const char *ip, guint port) { NiceAddress a; nice_address_init (&a); nice_address_set_from_string (&a, ip); nice_address_set_port (&a, port); return a; }
 
@@ -543,7 +566,12 @@ static void do_op (char *op)
     gboolean r = nice_agent_set_relay_info (A[I (1)].agent, I (2), I (3), hn, I (4), "user", "pass", NICE_RELAY_TYPE_TURN_UDP);
     T ("api %d set_relay_info %d %d name:%d =%d", I (1), I (2), I (3), I (4), r);
     /* the resolver runs in a worker thread in real time: wait for its answer here, so that it lands at this point of virtual time */
-    for (int k = 0; k < 100; k++) { g_usleep (2000); while (g_main_context_iteration (ctx, FALSE)) { dispatch_count++; vnow_us++; } } }
+    settle (); }
+  else if (!strcmp (a[0], "relayhost")) { /* relayhost,i,s,c,name,port : TURN server given by an arbitrary host name (e.g. one that does not resolve) */
+    gboolean r = nice_agent_set_relay_info (A[I (1)].agent, I (2), I (3), a[4], I (5), "user", "pass", NICE_RELAY_TYPE_TURN_UDP);
+    T ("api %d set_relay_info %d %d host:%s:%s =%d", I (1), I (2), I (3), a[4], a[5], r); }
+  else if (!strcmp (a[0], "settle")) { /* real-time wait for resolver worker threads; their answers land at this point of virtual time */
+    settle (); T ("net settle"); }
   else if (!strcmp (a[0], "relay")) { gboolean r = nice_agent_set_relay_info (A[I (1)].agent, I (2), I (3), a[4], I (5), "user", "pass", NICE_RELAY_TYPE_TURN_UDP); T ("api %d set_relay_info %d %d %s:%s =%d", I (1), I (2), I (3), a[4], a[5], r); }
   else if (!strcmp (a[0], "restart") || !strcmp (a[0], "restart_stream")) { int i = I (1); guint sid = n > 2 ? I (2) : 1;
     gchar *u = NULL, *p = NULL; if (nice_agent_get_local_credentials (A[i].agent, sid, &u, &p)) { g_free (old_ufrag[i]); g_free (old_pwd[i]); old_ufrag[i] = u; old_pwd[i] = p; }
